@@ -998,6 +998,107 @@ def run_nested(rep, pool):
     return fails
 
 
+# ------------------------------------------------------------------- restamp --
+
+RESTAMP_TIMES = (0.0, 1.0, 2.5, 1.0)
+
+
+def _in_routine(fn):
+    """Run fn() with a routine as the current time thread (in non-real-time mode the send
+    instant counts only there) and return its result."""
+    s = sc()
+    box = []
+
+    def gen():
+        box.append(fn())
+        yield 0
+    s['stm'].Routine(gen).next()
+    return box[0]
+
+
+def check_restamp(case):
+    """The same content encoded at several send instants: every time the bytes decode to the
+    content with the time tags of *that* instant (nothing of an earlier encoding is kept)."""
+    s = sc()
+    is_bundle = not isinstance(case[0], str)
+    fails = []
+    for t in RESTAMP_TIMES:
+        tt = (lambda lat, t=t: O.nrt_timetag(lat, t))
+        try:
+            exp = (O.coerce_bundle if is_bundle else O.coerce_message)(case, tt)
+        except O.OscError:
+            return fails
+        build = s['iface']._build_bundle if is_bundle else s['iface']._build_msg
+        try:
+            dgram = _in_routine(lambda: bytes(build(t, clone(case)).dgram))
+        except Exception as e:
+            if has_empty_blob(case):
+                return fails
+            fails.append(fail('C06.accept', 'C06.accept:unexpected-refusal',
+                              'representable %s is refused when sent at %s from a routine: %s: %s'
+                              % (_short(case), t, type(e).__name__, e), case,
+                              type(e).__name__, O.encode(exp).hex()[:400], 'restamp'))
+            return fails
+        fl = check_conformance(dgram, exp, case, 'restamp',
+                               'sent at logical time %s from a routine (after the same content '
+                               'was sent at %s): %s' % (t, list(RESTAMP_TIMES[:RESTAMP_TIMES.index(t)]),
+                                                        _short(case)))
+        for f in fl:
+            f['key'] = f['key'].replace('C06.conformance:', 'C06.conformance:restamp-')
+        fails += fl
+        if fl:
+            break
+    return fails
+
+
+def _work_restamp(task):
+    seed, count = task
+    rng = random.Random(seed)
+    sc()
+    fails = []
+    digests = set()
+    for i in range(count):
+        case = gen_msg(rng, 4, True, False) if i % 2 else gen_bundle(rng, 4, None, True, True, False)
+        digests.add(hashlib.blake2b(repr(enc(case)).encode(), digest_size=8).digest())
+        fails += check_restamp(case)
+        if len(fails) > 200:
+            fails = _cap(fails)
+    return count, digests, _cap(fails)
+
+
+def run_restamp(rep, pool):
+    per = 600 if rep.tier == 'thorough' else 60
+    tasks = [(rep.rng.getrandbits(48), per) for _ in range(16)]
+    n = 0
+    digests = set()
+    fails = []
+    for k, dg, fl in pool.imap_unordered(_work_restamp, tasks, chunksize=1):
+        n += k
+        digests |= dg
+        fails += fl
+    fixed = [
+        ['/b_alloc', 7, 1024, 1, ['/b_query', 7, [0.25, ['/s_new', 'x', 1000, 0, 1]]]],
+        ['/a', ['/b', ['/c', [0.5, ['/d', [1, ['/e']]]]]]],
+        ['/a', [0.25, ['/b']], ['/c', [0.25, ['/b']]]],
+        [0.5, ['/a', ['/b', [0.75, ['/c']]]], [1, ['/d', ['/e', [1, ['/f']]]]]],
+    ]
+    for c in fixed:
+        n += 1
+        fails += check_restamp(c)
+    rep.bounded(
+        name='restamp',
+        function='OscInterface._build_msg/_build_bundle, NrtOscInterface._get_timetag',
+        bound='%d generated nested messages/bundles (depth 4) + %d fixed completion-message chains, '
+              'each encoded at the logical send times %s in this order from inside a routine '
+              '(non-real-time mode)' % (16 * per, len(fixed), list(RESTAMP_TIMES)),
+        evaluations=n * len(RESTAMP_TIMES), distinct_nontrivial=len(digests),
+        rule='every encoding decodes (independent OSC 1.0 reader) to the content with all nested '
+             'time tags = int((send time + latency) * 2**32) of that send, whatever was encoded '
+             'before; distinct = distinct contents',
+        samples=[enc(fixed[0]), enc(fixed[3])])
+    return fails
+
+
 # ------------------------------------------------------------------ straddle --
 
 class _FakeDef:
@@ -1440,6 +1541,7 @@ FUNCS = {
     'clump': check_clump,
     'send_clumped': check_send_clumped,
     'sync': check_sync,
+    'restamp': lambda a: check_restamp(dec(a)),
 }
 
 
@@ -1500,7 +1602,7 @@ def main(rep):
     sc()
     fails = []
     pool = None
-    if wants(rep, 'messages') or wants(rep, 'nested'):
+    if wants(rep, 'messages') or wants(rep, 'nested') or wants(rep, 'restamp'):
         pool = multiprocessing.get_context('fork').Pool(NPROC)
     try:
         if wants(rep, 'types'):
@@ -1511,6 +1613,8 @@ def main(rep):
             fails += run_messages(rep, pool)
         if wants(rep, 'nested'):
             fails += run_nested(rep, pool)
+        if wants(rep, 'restamp'):
+            fails += run_restamp(rep, pool)
         if wants(rep, 'straddle'):
             fails += run_straddle(rep)
         if wants(rep, 'clump'):
